@@ -641,3 +641,40 @@ Definition run_parse_stream (inp : list Z) : list Z :=
                        (parse_stream 1 (in_lines (Z.to_nat n) r))
   | [] => bad_input
   end.
+
+(* ---- component of C20: backend resolution ---- *)
+Require Import Mido.Model.Backend.
+Definition in_opt (z : Z) : option Z := if z <? 0 then None else Some z.
+Definition out_opt (o : option Z) : Z := match o with Some z => z | None => -1 end.
+Definition in_bname (m a : Z) : option bname := if m <? 0 then None else Some {| bn_mod := m; bn_api := in_opt a |}.
+Definition out_bcall (x : bcall) : list Z :=
+  match x with
+  | CInput n a => [0; out_opt n; out_opt a] | COutput n a => [1; out_opt n; out_opt a] | CIOPort n a => [2; out_opt n; out_opt a]
+  | CWrap i o a => [3; out_opt i; out_opt o; out_opt a] | CDevices a => [4; out_opt a] | CNoDevices => [5] | CNothing => [6]
+  end.
+Fixpoint in_bops (fuel : nat) (l : list Z) : list bop :=
+  match fuel with
+  | O => []
+  | S f =>
+    match l with
+    | 0 :: n :: k :: r => OpenInput (in_opt n) (in_opt k) :: in_bops f r
+    | 1 :: n :: k :: r => OpenOutput (in_opt n) (in_opt k) :: in_bops f r
+    | 2 :: n :: k :: r => OpenIOPort (in_opt n) (in_opt k) :: in_bops f r
+    | 3 :: k :: r => GetInputNames (in_opt k) :: in_bops f r
+    | 4 :: k :: r => GetOutputNames (in_opt k) :: in_bops f r
+    | 5 :: k :: r => GetIOPortNames (in_opt k) :: in_bops f r
+    | 6 :: r => Touch :: in_bops f r
+    | _ => []
+    end
+  end.
+Definition run_backend (inp : list Z) : list Z :=
+  match inp with
+  | nm :: na :: ca :: ld :: ue :: em :: ea :: ei :: eo :: eio :: nat_ :: gd :: ops =>
+      let c := {| c_name := in_bname nm na; c_api := in_opt ca; c_load := negb (ld =? 0); c_useenv := negb (ue =? 0);
+                  e_backend := in_bname em ea; e_in := in_opt ei; e_out := in_opt eo; e_io := in_opt eio;
+                  m_native_ioport := negb (nat_ =? 0); m_get_devices := negb (gd =? 0) |} in
+      let s0 := b_init c in
+      let '(s, calls) := b_run c s0 (in_bops (length ops) ops) in
+      out_list (s_imports s0) ++ flat_map (fun x => out_bcall x ++ [-9]) calls ++ out_list (s_imports s)
+  | _ => bad_input
+  end.
